@@ -8,7 +8,7 @@ let op_of = function 0 -> XNone | 1 -> XFlipH | 2 -> XFlipV | 3 -> XTranspose | 
                    | 5 -> XRot90 | 6 -> XRot180 | _ -> XRot270
 let oset_of = function 0 -> OUnset | 1 -> OPos | _ -> ONeg
 let err_name = function ENotPerfect -> "NotPerfect" | EBadCrop -> "BadCrop" | ECropExt -> "CropExt"
-                      | ENoGray -> "NoGray" | EAlign -> "Align" | EQuantReuse -> "QuantReuse"
+                      | ENoGray -> "NoGray" | EAlign -> "Align" | EQuantReuse -> "QuantReuse" | EUnknownSubsamp -> "UnknownSubsamp"
 let sentinel = List.init 64 (fun _ -> z_of_int 5555)
 
 let parse_image (a : int array) =
@@ -49,6 +49,13 @@ let dump_image b im =
     done done) im.i_comps
 
 let () = iter_lines (fun line ->
+  match words line with
+  | "ss" :: jcs :: nc :: rest ->
+    (* ss <jpeg_color_space> <nc> {hs vs}*nc : getSubsamp() *)
+    let r = Array.of_list (List.map int_of_string rest) in
+    let facs = List.init (int_of_string nc) (fun i -> (z_of_int r.(2 * i), z_of_int r.(2 * i + 1))) in
+    Printf.printf "ss %d\n" (int_of_z (get_subsamp_l (z_of_int (int_of_string jcs)) facs))
+  | _ ->
   match fields line with
   | [ hd; img ] ->
     (match words hd with
